@@ -72,7 +72,11 @@ Record intent_v2 := {
          None = signed partial transaction (root subintent) *)
 Record tx_v2 := {
   v2_payload_len : N; v2_tip : option N; v2_root : intent_v2; v2_root_signatures : N;
-  v2_subs : list intent_v2; v2_batches : list N (* signatures per non-root batch *) }.
+  v2_subs : list intent_v2; v2_batches : list N (* signatures (preview: public keys) per non-root batch *);
+  (* PreviewTransactionV2 (tip = Some _): RawPreviewTransaction is TransactionPayloadKind::Other (no
+     payload length check), the key lists are raw values (no array limit at preparation), signature
+     counts are the numbers of declared public keys, the notary still counts 1 *)
+  v2_preview : bool }.
 
 (* ---- outcomes ---- *)
 Inductive loc := Root | NonRoot (i : N) | Across.
@@ -96,7 +100,9 @@ Inductive err :=
 | TooManyInstructions (l : loc).
 (* overall validity range of a V2 transaction *)
 Record range := { r_start : N; r_end : N; r_min_ts : option Z; r_max_ts : option Z }.
-Inductive outcome := AcceptV1 | AcceptV2 (r : range) | Reject (e : err).
+(* PanicDepthUnderflow: `self.config.max_subintent_depth - 1` in validate_intent_relationships with a
+   subintent root and a configured depth of 0 (usize underflow; the harness builds with overflow checks) *)
+Inductive outcome := AcceptV1 | AcceptV2 (r : range) | Reject (e : err) | PanicDepthUnderflow.
 
 (* ---- message (validate_message_v1 = validate_message_v2 on the summary) ---- *)
 Fixpoint decryptors_loop (ds : list (N * N * N)) (total : N) : message_err + N :=
@@ -276,7 +282,9 @@ Fixpoint prepare_cores (c : config) (l : list intent_v2) : option err :=
 Definition len {A} (l : list A) : N := N.of_nat (length l).
 Definition prepare_v2 (c : config) (t : tx_v2) : option err :=
   (* check_len applies to complete user transactions only (TransactionPayloadKind::Other for partials) *)
-  if match v2_tip t with Some _ => max_user_payload_length c <? v2_payload_len t | None => false end
+  if match v2_tip t with
+     | Some _ => negb (v2_preview t) && (max_user_payload_length c <? v2_payload_len t)
+     | None => false end
   then Some PrepareTransactionTooLarge
   else
     match prepare_core c (v2_root t) with
@@ -288,7 +296,7 @@ Definition prepare_v2 (c : config) (t : tx_v2) : option err :=
         match prepare_cores c (v2_subs t) with
         | Some e => Some e
         | None =>
-          if max_subintents_per_transaction c <? len (v2_batches t)
+          if negb (v2_preview t) && (max_subintents_per_transaction c <? len (v2_batches t))
           then Some (PrepareTooManyValues VSubintentSignatureBatches (len (v2_batches t))
                                           (max_subintents_per_transaction c))
           else None
@@ -321,7 +329,12 @@ Definition validate_v2 (c : config) (net : option N) (t : tx_v2) : outcome :=
     match batch_counts c 0 (v2_batches t) with
     | Some e => Reject e
     | None =>
-      (* validate_intents_and_structure: root.validate_intent *)
+      (* validate_intents_and_structure: validate_intent_relationships computes max_subintent_depth - 1
+         for a subintent root (after STEP 1-2, which pass on the structurally valid transactions) *)
+      if match v2_tip t with None => max_subintent_depth c =? 0 | Some _ => false end
+      then PanicDepthUnderflow
+      else
+      (* root.validate_intent *)
       let tip_bad := match v2_tip t with
                      | Some tip => (tip <? min_tip_basis_points c) || (max_tip_basis_points c <? tip)
                      | None => false
@@ -349,3 +362,25 @@ Definition validate_v2 (c : config) (net : option N) (t : tx_v2) : outcome :=
       end
     end
   end.
+
+(* ================================ V1 preview ================================ *)
+(* validate_preview_intent_v1: the intent is prepared on its own (RawTransactionIntent is
+   TransactionPayloadKind::Other: no payload length check; blobs limit applies), then validate_intent_v1
+   and finalize.  No signature is counted or verified: signer_public_keys are passed through. *)
+Definition validate_preview_v1 (c : config) (net : option N) (t : tx_v1) : outcome :=
+  if max_blobs c <? v1_blobs t then Reject (PrepareTooManyValues VBlob (v1_blobs t) (max_blobs c))
+  else
+    match validate_header_v1 c net (v1_header t) with
+    | Some e => Reject (HeaderError Root e)
+    | None =>
+      match validate_message c (v1_message t) with
+      | Some e => Reject (MessageError Root e)
+      | None =>
+        if max_references_per_intent c <? v1_references t
+        then Reject (TooManyReferences Root (v1_references t) (max_references_per_intent c))
+        else if max_instructions c <? v1_instructions t then Reject (TooManyInstructions Root)
+        else if max_total_references c <? v1_references t
+        then Reject (TooManyReferences Across (v1_references t) (max_total_references c))
+        else AcceptV1
+      end
+    end.
